@@ -12,6 +12,8 @@ import vlib
 sys.path.insert(0, os.path.join(vlib.VERIF, "ref"))
 import expr as X  # noqa: E402
 
+X.ALLOW_REAL_ZERO = True  # values are compared here (either print of a zero is accepted); a zero divisor of either sign gives no value
+
 NAMES = {
     "u5": 5, "u0": 0, "u12": 12, "big": 4000000000, "i3": -3, "i1": -1, "r25": 2.5, "r05": 0.5, "rneg": -1.25, "r100": 100.0,
     "s12": "12", "sneg": "-7", "s25": "2.5", "txt": "abc", "empty": "", "bt": True, "bf": False, "nul": None, "strue": "true",
@@ -89,17 +91,20 @@ def run(tier, seed):
         seen = set()
         samples = []
         for path in glob.glob(outp + ".*"):
-            with open(path) as f:
-                for line in f:
-                    head, m_hex, i1_hex, i2_hex = [x.strip() for x in line.split("|")]
-                    idx, kind, val = head.split()
-                    idx = int(idx)
-                    text, exp, real, e, maxmag = cases[idx]
+            if True:
+                for line in vlib.complete_lines(path):
+                    try:
+                        head, m_hex, i1_hex, i2_hex = [x.strip() for x in line.split("|")]
+                        idx, kind, val = head.split()
+                        idx = int(idx)
+                        text, exp, real, e, maxmag = cases[idx]
+                        m_out = "" if m_hex == "-" else bytes.fromhex(m_hex).decode("latin-1")
+                        i1 = "" if i1_hex == "-" else bytes.fromhex(i1_hex).decode("latin-1")
+                        i2 = "" if i2_hex == "-" else bytes.fromhex(i2_hex).decode("latin-1")
+                    except (ValueError, IndexError):
+                        continue  # torn record of a worker that died (reported by absorb)
                     compared += 1
                     seen.add(text)
-                    m_out = "" if m_hex == "-" else bytes.fromhex(m_hex).decode("latin-1")
-                    i1 = "" if i1_hex == "-" else bytes.fromhex(i1_hex).decode("latin-1")
-                    i2 = "" if i2_hex == "-" else bytes.fromhex(i2_hex).decode("latin-1")
                     top = X.strip_par(e)
                     opk = top[1] if top[0] == "bin" else top[0]
                     key = None
